@@ -129,6 +129,16 @@ class World:
         self.objs.me = me
         return self.objs.construct(cname, list(args), dict(kwargs or {}))
 
+    def call(self, fname: str, args: list, kwargs: Optional[dict] = None):
+        """the result of the repository's module-level factory function `fname` (needs real_exprs)"""
+        if self.objs is None or fname not in self.objs.helpers:
+            raise AnalysisError(f"World.call: no factory function {fname}")
+        me = MiniEval(self.oracle(), f"call {fname}", permissive=True, resolver=self.objs.resolver)
+        me.isinstance_hook = lambda v, cn: ((cn.split(".")[-1] in v.attrs["$isa"]) if isinstance(v, Sym) and "$isa" in v.attrs else None)
+        self.me = me
+        self.objs.me = me
+        return me.call_def(self.objs.helpers[fname], list(args), dict(kwargs or {}), {})
+
     def int_literal(self, v: int):
         """an Int(v) child: lowers to `int v`, carries .value, is an instance of Int"""
         c = Sym(f"expr:Int({v})", attrs={"$isa": {"Expr", "Int", "LeafExpr"}, "value": v, "stack_frames": None, "trace": None})
